@@ -9,7 +9,7 @@ import (
 // Skeleton programs for dependency / fork shapes that the purely random
 // generator reaches rarely.  Types and literal values are still random.
 
-const NTemplates = 16
+const NTemplates = 17
 
 // NFileTemplates file-passing skeletons follow the NTemplates dataflow ones.
 const NFileTemplates = 10
@@ -442,6 +442,42 @@ func Template(kind int, seed int64, cfg *Config) *Program {
 			Ret: []Binding{{Id: "ya", Exp: ref("INNER", "ya")}, {Id: "yb", Exp: ref("INNER", "yb")}, {Id: "n", Exp: ref("INNER", "n")}, {Id: "nb", Exp: ref("INNER", "nb")},
 				{Id: "va", Exp: ref("VIA_A", "y")}, {Id: "vb", Exp: ref("VIA_B", "y")}}}
 		p.Pipelines = []*Pipeline{inner, mkp, top}
+	case 16:
+		// a pipeline mapped over an outer collection; inside it a stage produces
+		// the collection (its length depends on the outer element) that an inner
+		// map call runs over, and a consumer takes the merged inner result. The
+		// outer collection is a stage's output (MID) or a two-element literal
+		// (MIDL); the checks force jagged inner lengths per outer fork.
+		geni := src(&Stage{Name: "GENI", Ins: []Param{{Name: "seed", Type: TInt}}, Outs: []Param{{Name: "arr", Type: ArrayOf(TInt)}}})
+		one := src(&Stage{Name: "ONE", Ins: []Param{{Name: "x", Type: TInt}, {Name: "y", Type: TInt}}, Outs: []Param{{Name: "xo", Type: TInt}}})
+		row := src(&Stage{Name: "ROW", Ins: []Param{{Name: "v", Type: ArrayOf(TInt)}}, Outs: []Param{{Name: "n", Type: TInt}}})
+		grid := src(&Stage{Name: "GRID", Ins: []Param{{Name: "v", Type: ArrayOf(ArrayOf(TInt))}}, Outs: []Param{{Name: "n", Type: TInt}}})
+		p.Stages = []*Stage{geni, one, row, grid}
+		mid := &Pipeline{Name: "MIDP", Ins: []Param{{Name: "n", Type: TInt}}, Outs: []Param{{Name: "ys", Type: ArrayOf(TInt)}, {Name: "s", Type: TInt}},
+			Calls: []*Call{
+				{Callee: "GENI", Binds: []Binding{{Id: "seed", Exp: self("n")}}},
+				{Callee: "ONE", Map: true, Binds: []Binding{{Id: "x", Exp: ref("GENI", "arr"), Split: true}, {Id: "y", Exp: self("n")}}},
+				{Callee: "ROW", Alias: "SUM", Binds: []Binding{{Id: "v", Exp: ref("ONE", "xo")}}},
+			},
+			Ret: []Binding{{Id: "ys", Exp: ref("ONE", "xo")}, {Id: "s", Exp: ref("SUM", "n")}}}
+		top := &Pipeline{Name: "TOP", Outs: []Param{{Name: "yss", Type: ArrayOf(ArrayOf(TInt))}},
+			Calls: []*Call{
+				{Callee: "GENI", Alias: "SRC", Binds: []Binding{{Id: "seed", Exp: lit(s1)}}},
+				{Callee: "MIDP", Alias: "MID", Map: true, Binds: []Binding{{Id: "n", Exp: ref("SRC", "arr"), Split: true}}},
+				{Callee: "GRID", Alias: "SEE", Binds: []Binding{{Id: "v", Exp: ref("MID", "ys")}}},
+			},
+			Ret: []Binding{{Id: "yss", Exp: ref("MID", "ys")}}}
+		for k := 0; k < 4; k++ {
+			// four instances over a two-element literal, each with its own
+			// forced pair of inner lengths
+			ml, see := fmt.Sprintf("MIDL%d", k), fmt.Sprintf("SEEL%d", k)
+			top.Calls = append(top.Calls,
+				&Call{Callee: "MIDP", Alias: ml, Map: true, Binds: []Binding{{Id: "n", Exp: &Exp{Kind: EArray, Elems: []*Exp{lit(s1 + int64(k)), lit(s2 + 1000 + int64(k))}}, Split: true}}},
+				&Call{Callee: "GRID", Alias: see, Binds: []Binding{{Id: "v", Exp: ref(ml, "ys")}}})
+			top.Outs = append(top.Outs, Param{Name: fmt.Sprintf("yl%d", k), Type: ArrayOf(ArrayOf(TInt))}, Param{Name: fmt.Sprintf("sl%d", k), Type: ArrayOf(TInt)})
+			top.Ret = append(top.Ret, Binding{Id: fmt.Sprintf("yl%d", k), Exp: ref(ml, "ys")}, Binding{Id: fmt.Sprintf("sl%d", k), Exp: ref(ml, "s")})
+		}
+		p.Pipelines = []*Pipeline{mid, top}
 	default:
 		fk := kind - NTemplates // file-passing skeleton number
 		// file-passing skeletons: a stage mapped over a run-time sized
